@@ -197,9 +197,13 @@ def run(ctx):
     c14w.run(ctx, THEOREM + ' + reader spec / writer model (C12_records, C10_lossy_never_silent)')
     ctx.rule += ('; CSV level: random byte strings (BOM, quotes, ragged lines, invalid utf-8) x input policy x output policy x {select *, select *, None, select "x"} '
                  'file to file through query_csv of both ports: warning kinds == reader-spec warnings + writer-model flags exactly, output text == model lines, undecodable input == IO error')
+    # static / configuration error paths of both ports against Static2.v (entry 330) - coverage gaps, notes/covgap.md
+    importlib.import_module('props.cov_static').run(ctx, THEOREM)
 
 
 def replay(ctx, case):
+    if case.get('part') == 'cov_static':
+        return importlib.import_module('props.cov_static').replay(ctx, case, THEOREM)
     if case.get('part') in ('csvwarn', 'csvcolor'):
         return c14w.replay(ctx, case, THEOREM)
     ec.replay(ctx, case, THEOREM, rel=rel)
